@@ -201,6 +201,11 @@ func runC02(c *Ctx) {
 	c.Rule("C02-D4", "no goroutine hop on the receive path: no `go` statement lies on a call path from onEIOPacket (server/client) to (*eventHandler).call — handler entry order equals arrival order", 2)
 	goHops(c, "C02-D4")
 
+	c.Rule("C02-D7", "queued frames are not overwritten or stranded: get() of both queues resets the field to nil (it does not keep the backing array the consumer is still reading), and packets are handed to the current transport "+
+		"under transportMu (shared with C07-D8)", 4)
+	queueGetResets(c, "C02-D7")
+	sendUnderTransportLock(c, "C02-D7")
+
 	c.Rule("C02-D6", "transports hand packets over synchronously and in arrival order: every Callbacks.OnPacket call of the transports and of the Engine.IO sockets is a plain call on the transport's own reading goroutine "+
 		"(not `go`, not deferred, not inside a closure started with `go`), the Engine.IO layer forwards to the Socket.IO callbacks the same way, and the polling server answers a POST only after OnPacket returned "+
 		"(the next POST of the same client is sent after that answer: answering first lets two payloads be processed concurrently)", 9)
